@@ -21,12 +21,8 @@ def gen(rng, tier):
     if tier == "thorough":
         for n, edges in _atlas(7): out.append({"kind": "graph", "G": common.mk_graph(n, [(a, b, 1) for a, b in edges], rng), "s": rng.randrange(1 << 30)})
     else:
-        seen = set()
-        for n, edges in _atlas(6): out.append({"kind": "graph", "G": common.mk_graph(n, [(a, b, 1) for a, b in edges], rng), "s": rng.randrange(1 << 30)})     # all 142 connected simple graphs on 2..6 vertices
-        for _ in range(40):
-            G, fam = common.random_connected_graph(rng, 6, 7, multi=False)
-            G["edges"] = [[a, b, 1] for a, b, _ in G["edges"]]
-            if str(G["edges"]) not in seen: seen.add(str(G["edges"])); out.append({"kind": "graph", "G": G, "s": rng.randrange(1 << 30)})
+        # all 995 connected simple graphs on 2..7 vertices (the thorough tier runs the same set under 8 hash seeds instead of 2)
+        for n, edges in _atlas(7): out.append({"kind": "graph", "G": common.mk_graph(n, [(a, b, 1) for a, b in edges], rng), "s": rng.randrange(1 << 30)})
     return out
 def _canon_graph(g):
     from chipfiring.CFGraph import Vertex
